@@ -122,10 +122,18 @@ impl SizeManifestBuilder {
         let entry_count = self.entries.len() as u32;
         let total_size: u64 = self.entries.iter().map(|e| e.esize).sum();
 
-        // Resize tag bit masks to match entry count
+        // Resize tag bit masks to match entry count. `tag_file` accepts indices
+        // of entries that were never added: bits beyond the last entry must not
+        // survive in the padding of the last mask byte.
         let bit_mask_size = (self.entries.len()).div_ceil(8);
+        let used_bits = self.entries.len() % 8;
         for tag in &mut self.tags {
             tag.bit_mask.resize(bit_mask_size, 0);
+            if used_bits != 0
+                && let Some(last) = tag.bit_mask.last_mut()
+            {
+                *last &= 0xFFu8 << (8 - used_bits);
+            }
         }
 
         let header = match self.version {
